@@ -267,6 +267,25 @@ func propLaw(t *rapid.T, w *wg) {
 	if eq && !flatEq(pj, qj) {
 		cls = append(cls, "same_pt_diff_rep_Q")
 	}
+	// ---- P = Q as ONE object (receiver is also the operand): p+p = 2p, p-p = O
+	inf := ref.Pt{Inf: true}
+	sj := reg.Clone(pj)
+	reg.M(sj, "AddAssign", sj)
+	w.jacIs(t, "Jac p.AddAssign(&p)", sj, dbl)
+	sj = reg.Clone(pj)
+	reg.M(sj, "SubAssign", sj)
+	w.jacIs(t, "Jac p.SubAssign(&p)", sj, inf)
+	sj = reg.Clone(pj)
+	reg.M(sj, "Double", sj)
+	w.jacIs(t, "Jac p.Double(&p)", sj, dbl)
+	sa := reg.Clone(pa)
+	reg.M(sa, "Add", sa, sa)
+	w.affIs(t, "Affine p.Add(&p,&p)", sa, dbl)
+	sa = reg.Clone(pa)
+	reg.M(sa, "Sub", sa, sa)
+	w.affIs(t, "Affine p.Sub(&p,&p)", sa, inf)
+	cls = append(cls, "same_object")
+
 	nt := len(cls) > 0
 	all := mand(g.ID(), cls...)
 	all = append(all, "P:"+P.Class, "Q:"+Q.Class, "zp:"+zp, "zq:"+zq)
